@@ -66,21 +66,26 @@ def BankerNew (st : St) (bi : BankerInfo) : Prop :=
       1 ≤ bi.bt ∧ bi.bt ≤ 3 ∧ CurrentAt ti t top ∧ (bi.bt ≠ 2 → hasHash ti.path = false) ∧
       (bi.bt = 1 → ∃ p pi, ti.prev = some p ∧ st.toks[p]? = some pi ∧ pi.path = []))
 
-inductive Atom (env : Env) : St → St → Prop
-  | tok (st : St) (ti : TokInfo) (h : TokNew env st ti) : Atom env st { st with toks := st.toks ++ [ti] }
-  | banker (st : St) (bi : BankerInfo) (h : BankerNew st bi) : Atom env st { st with bankers := st.bankers ++ [bi] }
-  | move (st : St) (a : Addr) (d : Str) (x : Int) (c : Cause) (h : MoveOk st.bankers a d x c) :
-      Atom env st { st with bank := st.bank.move a d x c }
+/-- `sends = false` restricts to the changes that involve no banker SEND (no movement caused
+    by `SendCoins`, no change of the origin-send running total): what every instruction other
+    than `sd` is limited to. -/
+inductive Atom (env : Env) (sends : Bool) : St → St → Prop
+  | tok (st : St) (ti : TokInfo) (h : TokNew env st ti) : Atom env sends st { st with toks := st.toks ++ [ti] }
+  | banker (st : St) (bi : BankerInfo) (h : BankerNew st bi) : Atom env sends st { st with bankers := st.bankers ++ [bi] }
+  | move (st : St) (a : Addr) (d : Str) (x : Int) (c : Cause) (h : MoveOk st.bankers a d x c)
+      (hs : sends = true ∨ ∀ bid, c ≠ .bankerSend bid) :
+      Atom env sends st { st with bank := st.bank.move a d x c }
   | supply (st : St) (d : Str) (x : Int) (h : SupplyOk st.bankers d) :
-      Atom env st { st with bank := { st.bank with led := st.bank.led.setSupply d x } }
-  | spent (st : St) (s : Coins) (h : s = st.spent ∨ isAllGTE env.osend s = true) : Atom env st { st with spent := s }
+      Atom env sends st { st with bank := { st.bank with led := st.bank.led.setSupply d x } }
+  | spent (st : St) (s : Coins) (h : s = st.spent ∨ isAllGTE env.osend s = true) (hs : sends = true) :
+      Atom env sends st { st with spent := s }
   | params (st : St) (p : List ((Str × Str) × Nat)) (ac : List (Str × Accum)) :
-      Atom env st { st with params := p, accum := ac }
+      Atom env sends st { st with params := p, accum := ac }
 
 /-- finitely many atomic changes -/
-inductive Steps (env : Env) : St → St → Prop
-  | refl (st : St) : Steps env st st
-  | tail {a b c : St} : Steps env a b → Atom env b c → Steps env a c
+inductive Steps (env : Env) (sends : Bool) : St → St → Prop
+  | refl (st : St) : Steps env sends st st
+  | tail {a b c : St} : Steps env sends a b → Atom env sends b c → Steps env sends a c
 
 /-! ## authorisation of a debit (the statement's first sentence, on the event log) -/
 
@@ -107,6 +112,18 @@ def Authorised (env : Env) (persisted : List BankerInfo) (signer : Nat) (diffs :
   | .burn bid =>                                 -- the issuing realm removes its own denomination
     ∃ bi : BankerInfo, bankers[bid]? = some bi ∧ bi.bt = 3 ∧ issuable bi.path e.denom = true ∧ BankerProv env persisted toks bid bi
   | .mint _ => False
+
+/-- who signed a message -/
+def Msg.signer : Msg → Nat
+  | .call s _ _ _ _ => s
+  | .run s _ _ _ => s
+  | .bankSend s _ _ => s
+
+/-- the coins a message sends along (`OriginSend`) -/
+def Msg.send : Msg → Coins
+  | .call _ _ c _ _ => c
+  | .run _ c _ _ => c
+  | .bankSend _ _ _ => []
 
 /-- net movement of (a, d) recorded in a log -/
 def logSum (log : List Ev) (a : Addr) (d : Str) : Int :=
